@@ -13,7 +13,7 @@ class C11(PureCheck):
             "length 0..4 (thorough) over {a, U+FF25 (double-width), U+0301 (combining)} x {plain, red} - empty runs, the "
             "run-less value, runs ending exactly at a line boundary, double-width characters at every alignment, zero-width "
             "characters after a full line - and columns 2..5; list(f.width_aware_splitlines(columns)) recorded and validated "
-            "by TLC (WrapVerdict). distinct_nontrivial = distinct (layout, columns) with a double-width or zero-width character")
+            "by TLC (WrapVerdict); one run of 4097..131073 narrow / double-width characters wrapped at 1024 / 8192 / 10000 columns, judged on line lengths (JudgeWsplitLong). distinct_nontrivial = distinct (layout, columns) with a double-width or zero-width character")
     exhaustive = {"quick": False, "thorough": True}
     assumptions = ("width classes of the alphabet as in Width.tla; ./check setup verifies cwcwidth agrees",)
 
@@ -43,6 +43,13 @@ class C11(PureCheck):
         for f in pool:
             for c in (2, 3, 4, 5):
                 yield {"op": "wsplit", "f": f, "cols": c}
+        # one very long run (a log pasted into a single run): around 65536 columns of narrow characters and of double-width
+        # ones, wrapped at wide lines - judged on line lengths (JudgeWsplitLong), not cell by cell
+        for (cp, cw) in ((97, 1), (65317, 2)):
+            for n in (4097, 32768, 65535, 65536, 70000, 131073):
+                for c in (1024, 8192, 10000):
+                    if tier == "thorough" or (n + c) % 3 == 0 or n in (65536, 32768):
+                        yield {"op": "wsplitlong", "cp": cp, "cw": cw, "n": n, "cols": c, "atts": list(fmtlib.RED)}
         # two lazy line iterators alive at once, advanced in turn (two columns laid out side by side, or a line
         # re-wrapped inside the loop over the outer lines): with another value, with a value sharing its runs, with itself
         long1 = [[[97, 98, 99, 97, 98, 99, 97, 98], fmtlib.RED], [[98, 65317, 97, 99], fmtlib.PLAIN]]
@@ -54,6 +61,19 @@ class C11(PureCheck):
 
     def execute(self, inp):
         ev = dict(inp)
+        if inp["op"] == "wsplitlong":
+            from curtsies.formatstring import FmtStr, Chunk
+            ch = chr(inp["cp"])
+            atts = enc.dec_atts(inp["atts"])
+            f = FmtStr(Chunk(ch * inp["n"], atts))
+            try:
+                lines = list(f.width_aware_splitlines(inp["cols"]))
+                ev["k"] = "ok"
+                ev["lens"] = [len(x) for x in lines]
+                ev["same"] = int(all(x.s == ch * len(x) and all(dict(c.atts) == atts for c in x.chunks) and str(x) == str(FmtStr(Chunk(x.s, atts))) for x in lines))
+            except Exception as e:  # noqa
+                ev["k"], ev["lens"], ev["same"], ev["t"] = "exc", [], 0, enc.exc_name(e)
+            return ev
         f = enc.build_fmtstr(inp["f"])
         if "with" in inp:
             # share 0: an unrelated value; 1: a value built from f's own run objects; 2: f itself
@@ -82,11 +102,15 @@ class C11(PureCheck):
         return ev
 
     def classify(self, ev):
+        if ev["op"] == "wsplitlong":
+            return ("long", ev["cp"], ev["n"], ev["cols"])
         if any(WID[c] != 1 for t, _ in ev["f"] for c in t):
             return (str(ev["f"]), ev["cols"])
         return None
 
     def case_class(self, ev, v):
+        if ev["op"] == "wsplitlong":
+            return "one-very-long-run"
         f = ev["f"]
         if not f:
             return "run-less"
